@@ -61,7 +61,90 @@ def units(tier):
         for s1 in ("direct", "list", "dict", "opt"):
             for s2 in SHAPES + DSHAPES:
                 out.append((kind, 3, s1, s2, 15, 4))
+    # classes WITHOUT fields (markers, payload-less messages): their hooks cannot mark a field, they log into a trace
+    for kind in ("mixin", "plain", "orjson", "msgpack", "lazy"):
+        for where in ("own", "inherited"):
+            for pos in ("direct", "field", "list", "optional", "dictvalue"):
+                out.append(("fieldless", kind, where, pos, 0))
     return out
+
+
+def run_fieldless(unit, only=None):
+    """An empty dataclass E (all four hooks, declared by E or inherited from a plain hooks base) alone, as a field, list element,
+    Optional field and dict value of a holder H that has the hooks too: every (de)serialization runs pre then post exactly once
+    per instance, holder around children."""
+    from vmc import space
+    _, kind, where, pos, _ = unit
+    res = core.UnitResult()
+    base = {"mixin": "DataClassDictMixin", "plain": "", "orjson": "DataClassORJSONMixin", "msgpack": "DataClassMessagePackMixin",
+            "lazy": "DataClassDictMixin"}[kind]
+    hooks = ("    @classmethod\n    def __pre_deserialize__(cls, d):\n        TRACE.append(('pre_d', cls.__name__)); return d\n"
+             "    @classmethod\n    def __post_deserialize__(cls, obj):\n        TRACE.append(('post_d', cls.__name__)); return obj\n"
+             "    def __pre_serialize__(self):\n        TRACE.append(('pre_s', type(self).__name__)); return self\n"
+             "    def __post_serialize__(self, d):\n        TRACE.append(('post_s', type(self).__name__)); return d\n")
+    cfg = "    class Config(BaseConfig):\n        lazy_compilation = True\n" if kind == "lazy" else ""
+    src = ("from mashumaro.mixins.orjson import DataClassORJSONMixin\nfrom mashumaro.mixins.msgpack import DataClassMessagePackMixin\n"
+           "TRACE = []\nclass Hooks:\n" + hooks)
+    ebases = [b for b in ("Hooks" if where == "inherited" else "", base) if b]     # Hooks first: the mixin defines no-op hooks itself
+    src += "@dataclass\nclass E" + (f"({', '.join(ebases)})" if ebases else "") + ":\n" + (hooks if where == "own" else "") + (cfg or ("    pass\n" if where != "own" else ""))
+    ftype = {"direct": None, "field": "E", "list": "List[E]", "optional": "Optional[E]", "dictvalue": "Dict[str, E]"}[pos]
+    hb = base or "DataClassDictMixin"       # the holder is always a mixin (a plain E is reached through it)
+    if ftype is not None or kind == "plain":
+        src += f"@dataclass\nclass H({hb}):\n    x: {ftype or 'E'}\n" + hooks + cfg
+    with space.Ctx() as ctx:
+        try:
+            ctx.run(src)
+        except Exception as e:   # noqa: BLE001
+            res.cases += 1
+            res.violation(f"build-failed|{unit}", "build-failed", type(e).__name__, dict(unit=unit, entry="build", value_index=-1), f"{e!r:.300}")
+            return res
+        ns = ctx.ns
+        E, TRACE = ns["E"], ns["TRACE"]
+        top_is_E = "H" not in ns
+        make = {"direct": lambda: E(), "field": lambda: E(), "list": lambda: [E(), E()], "optional": lambda: E(),
+                "dictvalue": lambda: {"k": E()}}[pos]
+        n_children = 2 if pos == "list" else 1
+        value = E() if top_is_E else ns["H"](make())
+        wire = {} if top_is_E else {"x": {"direct": {}, "field": {}, "list": [{}, {}], "optional": {}, "dictvalue": {"k": {}}}[pos]}
+        top = type(value)
+        tname = top.__name__
+
+        def exp(pre, post):
+            inner = [(pre, "E"), (post, "E")] * n_children
+            return [(pre, "E"), (post, "E")] if top_is_E else [(pre, tname)] + inner + [(post, tname)]
+        eps = [("to_dict", lambda: value.to_dict(), exp("pre_s", "post_s")), ("from_dict", lambda: top.from_dict(wire), exp("pre_d", "post_d"))]
+        if kind == "orjson":
+            import orjson
+            eps += [("to_jsonb", lambda: value.to_jsonb(), exp("pre_s", "post_s")),
+                    ("from_json", lambda: top.from_json(orjson.dumps(wire)), exp("pre_d", "post_d"))]
+        if kind == "msgpack":
+            import msgpack
+            eps += [("to_msgpack", lambda: value.to_msgpack(), exp("pre_s", "post_s")),
+                    ("from_msgpack", lambda: top.from_msgpack(msgpack.packb(wire)), exp("pre_d", "post_d"))]
+        from mashumaro.codecs.basic import BasicDecoder, BasicEncoder
+        eps += [("codec_encode", lambda: BasicEncoder(top).encode(value), exp("pre_s", "post_s")),
+                ("codec_decode", lambda: BasicDecoder(top).decode(wire), exp("pre_d", "post_d"))]
+        for rep in (0, 1):          # the second round meets compiled methods (lazy kinds compile in the first)
+            for ei, (ep, call, want) in enumerate(eps):
+                if only is not None and only != (ep, rep):
+                    continue
+                res.cases += 1
+                res.transitions += 1
+                del TRACE[:]
+                try:
+                    call()
+                    got = list(TRACE)
+                except Exception as e:   # noqa: BLE001
+                    got = [("exc", type(e).__name__, str(e)[:120])]
+                if got != want:
+                    res.outcomes["neq"] += 1
+                    res.violation(f"hook-trace|{unit}|{ep}|{rep}", "hook-trace", "fieldless", dict(unit=unit, entry=ep, value_index=rep),
+                                  f"empty class E ({where} hooks, {kind}) at {pos}: {ep} round {rep} expected={want!r} got={got!r:.300}")
+                else:
+                    res.outcomes["ok"] += 1
+                    res.nontrivial += 1
+    res.states += 1
+    return res
 
 
 def _hooks(name, ctx_on):
@@ -311,6 +394,8 @@ def entry_points(tree):
 
 
 def run_unit(unit, only=None):
+    if unit[0] == "fieldless":
+        return run_fieldless(unit, only)
     kind, depth, s1, s2, mask = unit[:5]
     extra = unit[5] if len(unit) > 5 else 0
     res = core.UnitResult()
